@@ -15,7 +15,7 @@ RULE = (
     "epsilon in [-1,1] constant/spatial/time-dependent, dt_init over 1e-6..10, pinned zeros, strong drives, screening, "
     "injected refusals excluded), including that its epsilon, gamma, u and covariant Laplacian are the declared ones for the time of the step; a run is non-trivial when at least 3 calls were checked; distinct = distinct scenario digests"
 )
-LIFECYCLES = {"p_prior": 0.07, "p_metres": 0.08}  # shared object life cycles (scen.add_lifecycles) with their default rates
+LIFECYCLES = {"p_prior": 0.07, "p_metres": 0.08, "p_reoriented": 0.04}  # shared object life cycles (scen.add_lifecycles) with their default rates
 BUDGET = {"quick": {"runs": 700, "chunk": 10}, "thorough": {"runs": 120000, "chunk": 20}}
 COMPONENTS = {"real": ["TDGLSolver.solve_for_psi_squared and everything that feeds it (update, operators, drives)"], "stub": ["wall clock", "validator RNG (seeded)"]}
 ASSUMPTIONS = ["The quantifier of C02 is the whole per-site input space; this check decides the property on the states reached by simulated runs only."]
